@@ -4,6 +4,7 @@
 -/
 import ChialispModel.Drv.Base
 import ChialispModel.Drv.Conv
+import ChialispModel.Drv.CoreSyms
 import ChialispModel.Drv.Src
 import ChialispModel.Drv.Entry
 import ChialispModel.Drv.Purity
@@ -21,6 +22,7 @@ import ChialispModel.Drv.Reader
 def main (args : List String) : IO UInt32 := do
   match args with
   | ["base"] => Drv.Base.run; return 0
+  | ["coresyms"] => Drv.CoreSyms.run; return 0
   | ["conv"] => Drv.Conv.run; return 0
   | ["src"] => Drv.Src.run; return 0
   | ["entry"] => Drv.Entry.run; return 0
